@@ -135,6 +135,40 @@ func verifRead(gb *googleBreaker) verifSums {
 	return s
 }
 
+// the four Do* entry points, with or without context
+func verifInvoke(brk Breaker, entry, ctxm int64, ctx context.Context, req func() error, fb Fallback,
+	acceptable Acceptable) error {
+	switch entry {
+	case 0:
+		if ctxm == 0 {
+			return brk.Do(req)
+		}
+		return brk.DoCtx(ctx, req)
+	case 1:
+		if ctxm == 0 {
+			return brk.DoWithAcceptable(req, acceptable)
+		}
+		return brk.DoWithAcceptableCtx(ctx, req, acceptable)
+	case 2:
+		if ctxm == 0 {
+			return brk.DoWithFallback(req, fb)
+		}
+		return brk.DoWithFallbackCtx(ctx, req, fb)
+	default:
+		if ctxm == 0 {
+			return brk.DoWithFallbackAcceptable(req, fb, acceptable)
+		}
+		return brk.DoWithFallbackAcceptableCtx(ctx, req, fb, acceptable)
+	}
+}
+
+func verifAllow(brk Breaker, ctxm int64, ctx context.Context) (Promise, error) {
+	if ctxm == 0 {
+		return brk.Allow()
+	}
+	return brk.AllowCtx(ctx)
+}
+
 func verifRunCase(c verifC01Case) (out verifC01Out) {
 	out.ID = c.ID
 	defer func() {
@@ -200,38 +234,11 @@ func verifRunCase(c verifC01Case) (out verifC01Out) {
 				}
 			}()
 			var err error
-			switch entry {
-			case 0:
-				if ctxm == 0 {
-					err = brk.Do(req)
-				} else {
-					err = brk.DoCtx(ctx, req)
-				}
-			case 1:
-				if ctxm == 0 {
-					err = brk.DoWithAcceptable(req, acceptable)
-				} else {
-					err = brk.DoWithAcceptableCtx(ctx, req, acceptable)
-				}
-			case 2:
-				if ctxm == 0 {
-					err = brk.DoWithFallback(req, fb)
-				} else {
-					err = brk.DoWithFallbackCtx(ctx, req, fb)
-				}
-			case 3:
-				if ctxm == 0 {
-					err = brk.DoWithFallbackAcceptable(req, fb, acceptable)
-				} else {
-					err = brk.DoWithFallbackAcceptableCtx(ctx, req, fb, acceptable)
-				}
-			default:
+			if entry <= 3 {
+				err = verifInvoke(brk, entry, ctxm, ctx, req, fb, acceptable)
+			} else {
 				var p Promise
-				if ctxm == 0 {
-					p, err = brk.Allow()
-				} else {
-					p, err = brk.AllowCtx(ctx)
-				}
+				p, err = verifAllow(brk, ctxm, ctx)
 				if err == nil {
 					timex.AdvanceFake(time.Duration(dur))
 					if entry == 4 {
